@@ -409,6 +409,62 @@ def check_layout(case, acc, lay_by_name):
         core.unload_source(ns)
 
 
+# ---------------------------------------------------------------------------------------------
+# (d) a module edited and loaded again under the SAME file name: histories of versions whose lambda starts on the same line
+
+RELOAD_VERSIONS = [
+    ("x > 0", "", -5),
+    ("x is None or x > 100", ", 'x must be absent or large'", 5),
+    ("len(x) > 3 and x[0] == 1", "", [2]),
+    ("x is not None and x.real > 1000", "", 7),
+]
+
+
+def check_reload(acc):
+    import itertools
+    import linecache
+    import os
+
+    import icontract
+
+    fname = "/verif-gen/c07_reload_{}.py".format(os.getpid())
+    for hist in list(itertools.permutations(range(len(RELOAD_VERSIONS)), 2)) + list(itertools.permutations(range(len(RELOAD_VERSIONS)), 3)):
+        msgs = []
+        bad = None
+        for step, vi in enumerate(hist):
+            text, desc, arg = RELOAD_VERSIONS[vi]
+            src = "import icontract\n\n@icontract.require(lambda x: {}{})\ndef f(x):\n    return x\n".format(text, desc)
+            linecache.cache[fname] = (len(src), None, src.splitlines(True), fname)
+            ns = {"__name__": "c07_reload", "__file__": fname}
+
+            def go():
+                exec(compile(src, fname, "exec"), ns)
+                try:
+                    ns["f"](arg)
+                    return None
+                except BaseException as e:  # noqa
+                    return e
+            exc = core.fresh_ctx_run(go)
+            msgs.append(str(exc))
+            if type(exc) is not icontract.ViolationError:
+                bad = ("violation_replaced_by_other_exception", "step {}: version {!r} violated with x={!r}: expected ViolationError got {!r}".format(step, text, arg, exc))
+            elif text not in str(exc):
+                bad = ("stale_condition_text", "step {}: the module now holds {!r} but the message is {!r}".format(step, text, str(exc)))
+            else:
+                for vj, (other, _, _) in enumerate(RELOAD_VERSIONS):
+                    if vj != vi and other in str(exc):
+                        bad = ("stale_condition_text", "step {}: the message for {!r} carries the text of an earlier version: {!r}".format(step, text, str(exc)))
+            if bad:
+                break
+        linecache.cache.pop(fname, None)
+        acc.case(("reload", hist), True, len(hist), "bad" if bad else "ok")
+        if bad:
+            acc.violation(core.Violation(PROP, bad[0], {"part": "reload", "history": "/".join(map(str, hist))},
+                                         "history of versions {} loaded under one file name: {}".format([RELOAD_VERSIONS[i][0] for i in hist], bad[1]),
+                                         spec={"part": "reload", "history": list(hist)}))
+    acc.sample({"part": "reload", "versions": [v[0] for v in RELOAD_VERSIONS]}, cap=1)
+
+
 def work(args):
     import warnings
     warnings.simplefilter("ignore", SyntaxWarning)
@@ -421,6 +477,8 @@ def work(args):
             check_batch_a(payload, acc, vals)
         elif kind == "guards":
             check_guards(acc)
+        elif kind == "reload":
+            check_reload(acc)
         else:
             for case in payload:
                 check_layout(case, acc, lay_by_name)
@@ -433,6 +491,7 @@ def run(tier, t0):
     indexed = list(enumerate(conds))
     items = [("a", indexed[i:i + c06.BATCH]) for i in range(0, len(indexed), c06.BATCH)]
     items.append(("guards", None))
+    items.append(("reload", None))
     lc = layout_cases(tier)
     items += [("layout", lc[i:i + 40]) for i in range(0, len(lc), 40)]
     tot = core.merge(core.pmap(work, core.rotate(items)))
@@ -446,6 +505,8 @@ def run(tier, t0):
              "displays, f-strings, walrus) x 8 valuations with probes around the operands: the probes hit while the message is "
              "built must be a subset of those Python hit; (c) {} layout cases: 17 decorator layouts x 5 ways to name the "
              "decorator x 6 neighbour configurations x 4 scopes x def/async def/class x 3 conditions; "
+             "(d) every history of 2-3 out of 4 versions of a module loaded under ONE file name (the lambda starts on the same line in all of them), "
+             "each violated after loading: the message carries the text of the version just loaded; "
              "non-trivial = every falsifying case".format(len(conds), len(GUARDS), len(lc)),
         assumptions=["conditions are written as lambdas inside a decorator (the supported form)"],
         bounds={"conditions": len(conds), "guards": len(GUARDS), "layout_cases": len(lc)},
@@ -459,6 +520,8 @@ def replay(path):
         check_layout(tuple(data["case"]), acc, dict(layouts()))
     elif data["part"] == "guard":
         check_guards(acc)
+    elif data["part"] == "reload":
+        check_reload(acc)
     else:
         idx = {"require": 0, "ensure": 7, "invariant": 9}[data["role"]]
         check_batch_a([(idx, ("?", data["cond"], 0, data["cond"]))], acc, expr.valuations())
